@@ -201,6 +201,7 @@ package safehtml
 //@   option uses C13.empty_in_qimg
 //@   ensures prefix: isnil(err) ==> inlang(re_safeTrustedResourceURLPrefixPattern, format)
 //@   ensures unsafe: !inlang(re_safeTrustedResourceURLPrefixPattern, format) ==> !isnil(err) && len(r.str) == 0
+//@   ensures hostkept: isnil(err) && !(len(format) >= 2 && format[0] == '/' && format[1] == '/') ==> !(len(r.str) >= 2 && r.str[0] == '/' && r.str[1] == '/')
 //@   closure 1 (match string) (piece string)
 //@     ensures sticky: !isnil(before(err)) ==> !isnil(err)
 //@     ensures missing: !haskey(args, sub(match, 2, len(match) - 1)) ==> !isnil(err) && len(piece) == 0
